@@ -187,6 +187,14 @@ def check_obligations(pid, expected, thorough=False):
     return res
 
 
+def effective_level(pid, declared):
+    """A `proof` claim needs every obligation discharged: with open obligations (or no property
+    theorem yet) the level reported is `other` (partial proof + correspondence)."""
+    if declared == "proof" and (open_obligations(pid) or not theorem_names(pid)):
+        return "other"
+    return declared
+
+
 # ------------------------------------------------------------------------------- known findings
 def load_findings(pid):
     f = os.path.join(ROOT, "known_findings.json")
@@ -367,7 +375,7 @@ def main(argv=None):
 
     # 6. evidence
     wall = time.time() - t0
-    level = getattr(mod, "LEVEL", "proof")
+    level = effective_level(pid, getattr(mod, "LEVEL", "proof"))
     cov = {
         "obligations": obl["obligations"],
         "discharged": obl["discharged"],
@@ -385,7 +393,7 @@ def main(argv=None):
         "correspondence_failures": len(ctx.corr_failures),
         "oracle_failures": len(ctx.oracle_failures),
         "known_findings_hit": [k[1]["id"] for k in known],
-        "explanation": getattr(mod, "EXPLANATION", ""),
+        "explanation": getattr(mod, "EXPLANATION", "") or ("theorems proved so far: %s; open obligations: %s; the executable Lean model is tied to the real code by the correspondence cases of this run and the property itself is evaluated by a direct oracle on the same cases" % (sorted(obl["axioms"]), obl.get("open", []))),
         "exhaustive": bool(getattr(mod, "EXHAUSTIVE", False)),
     }
     if "leanchecker" in obl:
